@@ -21,7 +21,8 @@ Unmarked(lst) == [i \in 1..Len(lst) |-> Strip(lst[i])]
 ProjOf(ev) == [p \in 1..Len(ev.proj) |-> [begin |-> ev.proj[p].beginhex,
                   ins |-> [k \in 1..Len(ev.proj[p].ins) |-> [text |-> ev.proj[p].ins[k].text, bytes |-> ev.proj[p].ins[k].bytes]]]]
 
-StateOf(ev) == [live |-> TRUE, mode |-> ev.modename, depth |-> ev.depth, haslist |-> ev.haslist,
+Blocks4(ev) == [p \in 1..Len(ev.proj) |-> [beginoff |-> ev.proj[p].beginoff, n |-> Len(ev.proj[p].ins)]]
+StateOf(ev) == [live |-> TRUE, mode |-> ev.modename, depth |-> ev.depth, haslist |-> ev.haslist, stack |-> <<ev.modename>>,
                 listing |-> Unmarked(ev.listing), cursor |-> ev.cursor,
                 hasmem |-> ev.hasmem, memrows |-> ev.memrows, memcur |-> ev.memcur, stored |-> <<>>, memknown |-> FALSE]
 
@@ -56,11 +57,21 @@ JudgeCmd(ev, st) ==
     IF ev.outcome = "panic" THEN Fail("crash", "executed or answered with an error", ev.panic, NoState)
     ELSE IF ev.outcome \in {"exhausted", "failed"} THEN Fail("stuck", "executed or answered with an error", ev.outcome, NoState)
     ELSE IF ev.outcome = "quit" /\ ev.depth = 0 THEN Pass(NoState)
-    ELSE Let1(StateOf(ev), LAMBDA s2 :
+    ELSE Let1([StateOf(ev) EXCEPT !.stack = ModeAfter(st.stack, ev.toks, st.haslist /\ st.listing[st.cursor + 1].kind = "instr")], LAMBDA s2 :
       \* C23
       IF ListingProblem(ev) # "" THEN Fail(ListingProblem(ev), Listing(ProjOf(ev)), Unmarked(ev.listing), s2)
       ELSE IF st.mode = "app" /\ Cmd(ev) \in MoveCmd /\ ev.outcome = "error" /\ Unmarked(ev.listing) # st.listing
         THEN Fail("rejectedchanged", st.listing, Unmarked(ev.listing), s2)
+      \* the mode stack (C22: every line is executed in the mode the model says)
+      ELSE IF ev.depth # Len(ModeAfter(st.stack, ev.toks, st.haslist /\ st.listing[st.cursor + 1].kind = "instr"))
+              \/ (ev.depth > 0 /\ ev.modename # ModeAfter(st.stack, ev.toks, st.haslist /\ st.listing[st.cursor + 1].kind = "instr")[ev.depth])
+        THEN Fail("modestack", ModeAfter(st.stack, ev.toks, st.haslist /\ st.listing[st.cursor + 1].kind = "instr"),
+                  [depth |-> ev.depth, mode |-> ev.modename], s2)
+      \* emulator mode: the cursor follows the emulated instruction pointer
+      ELSE IF ev.modename = "emulate" /\ ev.hasip /\ ev.haslist /\ ev.ipoff >= 0
+              /\ LineOfOffset(Unmarked(ev.listing), Blocks4(ev), ev.ipoff) >= 0
+              /\ ev.cursor # LineOfOffset(Unmarked(ev.listing), Blocks4(ev), ev.ipoff)
+        THEN Fail("ipcursor", LineOfOffset(Unmarked(ev.listing), Blocks4(ev), ev.ipoff), ev.cursor, s2)
       \* C31
       ELSE IF st.mode = "app" /\ st.haslist
         THEN Let1(NavExpected(ev, st), LAMBDA nx :
@@ -76,6 +87,13 @@ JudgeRender(ev, st) ==
     IF ev.panic # "" THEN Fail("rendercrash", "no crash", ev.panic, st)
     ELSE IF ev.n >= ev.min /\ ~RenderOk(ev.min, ev.max, ev.n, ev.lines)
       THEN Fail("height", [granted |-> ev.n, min |-> ev.min, max |-> ev.max], ev.lines, st)
+    \* which lines a cursor view shows: the window around the cursor
+    ELSE IF ev.op = "render" /\ ev.n >= ev.min /\ st.mode = "app" /\ st.haslist
+            /\ ev.shown # WindowLines(st.cursor, ev.n, Len(st.listing))
+      THEN Fail("window", WindowLines(st.cursor, ev.n, Len(st.listing)), ev.shown, st)
+    ELSE IF ev.op = "render" /\ ev.n >= ev.min /\ st.hasmem /\ Len(st.memrows) > 0
+            /\ ev.shown # WindowLines(st.memcur, ev.n, Len(st.memrows))
+      THEN Fail("window", WindowLines(st.memcur, ev.n, Len(st.memrows)), ev.shown, st)
     ELSE Pass(st)
 
 \* ---- C32 ----------------------------------------------------------------------
@@ -110,7 +128,10 @@ JudgeMemCmd(ev, st) ==
     IF ev.outcome = "panic" THEN Fail("crash", "executed or answered with an error", ev.panic, NoState)
     ELSE IF ev.outcome \in {"exhausted", "failed"} THEN Fail("stuck", "executed or answered with an error", ev.outcome, NoState)
     ELSE IF ev.outcome = "quit" /\ ev.depth = 0 THEN Pass(NoState)
-    ELSE Let1([StateOf(ev) EXCEPT !.stored = st.stored, !.memknown = st.memknown], LAMBDA s2 :
+    ELSE Let1([StateOf(ev) EXCEPT !.stored = st.stored, !.memknown = st.memknown,
+                                   !.stack = ModeAfter(st.stack, ev.toks, FALSE)], LAMBDA s2 :
+      IF ev.depth # Len(s2.stack) \/ (ev.depth > 0 /\ ev.modename # s2.stack[ev.depth])
+        THEN Fail("modestack", s2.stack, [depth |-> ev.depth, mode |-> ev.modename], s2) ELSE
       IF ~st.memknown THEN Pass(s2)
       ELSE IF MemProblem(ev, st.stored) # "" THEN Fail(MemProblem(ev, st.stored), DOMAIN st.stored, ev.memrows, s2)
       ELSE IF Cmd(ev) \in {"address", "addr", "a"} /\ Len(ev.args) >= 1 /\ ev.args[1].kind = "num" /\ ev.args[1].v >= 0
